@@ -194,7 +194,8 @@ func (en *Engine) canonical(st *State, fr *Frame, x *ssa.Call, name string, args
 		}
 	case "(*encoding/xml.Decoder).Decode":
 		if len(args) == 2 {
-			if dec, ok := args[0].(*CallV); ok && dec.Callee == "encoding/xml.NewDecoder" && len(dec.Args) == 1 {
+			if dec, ok := args[0].(*CallV); ok && dec.Callee == "encoding/xml.NewDecoder" && len(dec.Args) == 1 && !fieldsWritten(st, dec) {
+				// (a decoder whose settings were changed — Strict, CharsetReader, Entity — is not what Unmarshal uses)
 				if b := en.bytesOfReader(st, dec.Args[0]); b != nil {
 					res := en.emitCanonical(st, fr, x, "encoding/xml.Unmarshal", []Val{b, args[1]}, []types.Type{errorType()})
 					fr.env[x] = res[0]
@@ -679,4 +680,17 @@ func nilClockOnPath(st *State) Val {
 		}
 	}
 	return nil
+}
+
+// fieldsWritten: some field of the object v points to has been stored to on this path.
+func fieldsWritten(st *State, v Val) bool {
+	for _, e := range st.events {
+		if e.Kind != EvStore {
+			continue
+		}
+		if fa, ok := e.Addr.(*FieldAddrV); ok && fa.X.Key() == v.Key() {
+			return true
+		}
+	}
+	return false
 }
